@@ -275,6 +275,13 @@ func (c *MonCache) Last() []byte {
 	return nil
 }
 
+// NumFailed returns how many writes were refused by WriteErr.
+func (c *MonCache) NumFailed() int {
+	c.mu.Lock()
+	defer c.mu.Unlock()
+	return c.failed
+}
+
 func (c *MonCache) NumWrites() int {
 	c.mu.Lock()
 	defer c.mu.Unlock()
